@@ -102,8 +102,11 @@ CHECKS = {
          "provider object at a time), whenever no probe is in flight and the provider has learnt a host name, it is confirmed and serves "
          "exactly the last supplied service: PTR named its type, SRV with its port, TXT with its attributes, all under the requested "
          "name (dots->dashes) or an alternative name-k of it, SRV target = the proposal's (by C10 a registered host name), and these are "
-         "exactly the records a passive listener holds; C12_proposals_carry_last_request. 'First free' alternative is C07. Not proved: "
-         "target = the CURRENTLY registered name (false for the open finding created-during-reassertion). Tie + per run: acceptor final "
+         "exactly the records a passive listener holds; C12_proposals_carry_last_request; C12_serving_targets_current_hostname - under the "
+         "kernel's timer discipline (states creach, closed under Sim.step: C12_model_runs_are_creachable) a provider that serves while "
+         "the hostname is registered points its SRV at the currently registered host name (invariants: only the three known timers, "
+         "re-assertion timer only while registered, proposal target = last registered name). 'First free' alternative is C07. The "
+         "remaining gap is the open finding created-during-reassertion (a provider that never learnt a host name serves nothing). Tie + per run: acceptor final "
          "check (codes 30-35 incl. served name not taken) on implementation traces over histories of updates, conflicts, re-probes and "
          "structured scenarios.",
          "DESIGN.md section 4 (C12/C13)", "Rocq invariant proof over all handler sequences of the provider composite + executable acceptor with end-of-history check + differential correspondence under virtual time"),
